@@ -626,7 +626,13 @@ class Gen:
                 pool = avail[j % max(1, len(avail)):][:2] or avail
             else:
                 pool = avail + [d for d in defined if d not in unused]
+            if x in unused and defined:
+                # an unused definition may read anything, live or unused (chains of unused ones,
+                # and live intermediates that also feed an unused one)
+                pool = pool + defined + [p for p in states + params if p in unused]
             e = self.expr(pool)
+            if x in unused and defined and rng.random() < 0.6 and not any(v in defined for v in variables(e)):
+                e = ("bin", rng.choice("+*"), e, ("var", rng.choice(defined)))
             if shape in ("chain", "diamond") and defined:
                 # make sure the shape really is what it says
                 need = [defined[-1]] if shape == "chain" else defined[-2:]
